@@ -156,6 +156,17 @@ CHECKS["C17"] = dict(
     ref="§5.C17", note="The five non-bash shells are not installed: their automata are transcribed from documented quoting rules (trusted base); such verdicts are labelled model-only.",
     technique="TLA+ spec (Quote.tla: escaping functions + per-shell lexer automata) model-checked with TLC; real generators' emitted literals compared with the transcription and judged by a TLA+ trace spec")
 
+CHECKS["C15"] = dict(
+    text=("Derive.tla states what #[derive(Parser)] means for the struct descriptions of a compiled corpus: DeriveCmd (the generated "
+          "command: default actions, num_args, required-ness, value enums, struct groups, subcommand enums, flatten), Extract (the field "
+          "values taken from the matches per type shape), PrintValue and the update rule, on top of the parser specification; TLC checks "
+          "round trip and enum-name mapping for every argv within the bound and enumerates update lines from every parsed value; each "
+          "case is run through the real T::try_parse_from, T::command(), from_arg_matches and try_update_from of the corpus compiled "
+          "against /repo's clap_derive; divergent cases are judged by Trace_Derive.tla (parse iff command, field = extraction, round trip, "
+          "update touches only named fields)."),
+    ref="§5.C15", note="Only derive inputs of the corpus are covered; the corpus source and its descriptions are generated from one description (lib/corpus_gen.py).",
+    technique="TLA+ spec (Derive.tla over Parser.tla) model-checked with TLC; TLC-generated cases replayed on a compiled derive corpus; divergent cases judged by a TLA+ trace spec")
+
 NOT_YET = "check not built yet in this round (specification module planned in DESIGN.md §4/§5); not claimed until its check exists"
 
 
